@@ -221,7 +221,8 @@ func parseReferenceTime(c *core.Ctx, r *core.Report) {
 		}
 		for _, call := range an.AllCalls(fn) {
 			t := an.Callee(call)
-			if t == nil || t.Name() != "ParseConfigFile" || core.RelPkg(t) != "internal/trigger/file" {
+			// by role: the functions of the file package that turn file content and a reference time into the plan
+			if t == nil || core.RelPkg(t) != "internal/trigger/file" || t.Signature.Results().Len() == 0 || !strings.Contains(t.Signature.Results().At(0).Type().String(), "RunnableStages") {
 				continue
 			}
 			for i, a := range call.Common().Args {
@@ -283,4 +284,58 @@ func paramDescByFlag(c *core.Ctx, fn *ssa.Function, flag, fallback string) strin
 		return an.ParamDesc(found[0])
 	}
 	return "$" + fallback
+}
+
+// delegateTarget follows a function that only hands its parameters on to a variant of itself
+// (`func New(a, b) (…) { return NewWithOptions(a, b, nil) }`): the variant is what decides. Anything else is
+// returned unchanged.
+func delegateTarget(fn *ssa.Function) *ssa.Function {
+	for hop := 0; hop < 3; hop++ {
+		if fn == nil || len(fn.Blocks) != 1 {
+			return fn
+		}
+		var call *ssa.Call
+		ok := true
+		for _, in := range fn.Blocks[0].Instrs {
+			switch x := in.(type) {
+			case *ssa.Call:
+				if call != nil {
+					ok = false
+				}
+				call = x
+			case *ssa.Go, *ssa.Defer, *ssa.Send, *ssa.Panic:
+				ok = false
+			default:
+				// building the extra arguments (a zero options struct, a nil hook) is part of handing on
+			}
+		}
+		if !ok || call == nil {
+			return fn
+		}
+		g := an.Callee(call)
+		if g == nil || g.Blocks == nil || g.Pkg != fn.Pkg || len(call.Call.Args) < len(fn.Params) {
+			return fn
+		}
+		for i, p := range fn.Params {
+			if call.Call.Args[i] != ssa.Value(p) {
+				return fn
+			}
+		}
+		// the results are the variant's results, in order
+		rets := an.Returns(fn)
+		if len(rets) != 1 {
+			return fn
+		}
+		for i, res := range rets[0].Results {
+			if ex, isEx := res.(*ssa.Extract); isEx {
+				if ex.Tuple != ssa.Value(call) || ex.Index != i {
+					return fn
+				}
+			} else if res != ssa.Value(call) {
+				return fn
+			}
+		}
+		fn = g
+	}
+	return fn
 }
